@@ -95,7 +95,9 @@ CLAIMED = {
             'overlapping, original borehole/grout not aliased, SingleUTube converts to itself. Resistance matching for 4 concrete '
             'geometries and all conductivities/flows: real constructors, to_single, both objectives and solve_root over a contract model '
             'of pygfunction; grout objective strictly increasing in the trial conductivity, and on bracketed paths R_b*, R_fp and the '
-            'stored delta circuit equal the solved values (the grout clauses are a KNOWN FINDING on this tree).',
+            'stored delta circuit equal the solved values (the grout clauses are a KNOWN FINDING on this tree); for concrete flow cases '
+            '(convection coefficients from the real correlations) the pipe-resistance match is asserted unconditionally, bracket adequacy '
+            'included (laminar cases: KNOWN FINDING).',
             'NOT claimed: that the brackets contain the roots (Gnielinski/Colebrook, multipole numerics: not encodable; pygfunction is a '
             'contract stub). sqrt with defining equation, ln uninterpreted with product rule, brentq as exact root.', '3/C15', None),
     'C16': ('For each concrete polygon (12 hand-made incl. the demo outline + 48 seeded lattice polygons quick; all 3-4 vertex lattice polygons '
